@@ -22,10 +22,17 @@ DEVS = {
     "StaleCandidates": "D_C11_StaleCandidates",
     "IndexLocalClaim": "D_C11_IndexLocalClaim",
     "Resurrect": "D_C11_PatchExpiredResurrects",
+    "RefileGap": "D_C11_RefileGap",
 }
-WITNESS_LEVEL = {"EmptyCandidates": 11, "StaleCandidates": 12, "IndexLocalClaim": 13, "Resurrect": 14}
-WITNESS_INV = {"EmptyCandidates": "MatchedAtClaim", "StaleCandidates": "MatchedAtClaim", "IndexLocalClaim": "Disjoint",
-               "Resurrect": "NoResurrection"}
+# witness name -> (deviation, alphabet level of MC_Claims, invariant the as-built model must break)
+WITNESSES = {
+    "EmptyCandidates": ("EmptyCandidates", 11, "MatchedAtClaim"),
+    "StaleCandidates": ("StaleCandidates", 12, "MatchedAtClaim"),
+    "IndexLocalClaim": ("IndexLocalClaim", 13, "Disjoint"),
+    "Resurrect": ("Resurrect", 14, "NoResurrection"),
+    "ResurrectGhost": ("Resurrect", 15, "NoResurrection"),
+    "RefileGap": ("RefileGap", 16, "IndexOrder"),
+}
 INVS = "Disjoint MatchedAtClaim NoResurrection AtMostN IndexOrder NoGhost LockOK"
 
 
@@ -33,7 +40,7 @@ def devset(devs):
     return "{%s}" % ", ".join('"%s"' % d for d in sorted(devs))
 
 
-def mc_cfg(level, devs, maxops=3, extra=""):
+def mc_cfg(level, devs, maxops=3, extra="", invs=INVS):
     return """SPECIFICATION MCSpec
 CONSTANTS
   Keys = {1, 2, 3}
@@ -46,7 +53,7 @@ CONSTANTS
 CONSTRAINT Bounded
 INVARIANTS %s
 %s
-""" % (devset(devs), maxops, level, INVS, extra)
+""" % (devset(devs), maxops, level, invs, extra)
 
 
 def trace_cfg(devs):
@@ -82,7 +89,7 @@ def conv_iop(o):
 
 
 def pc_want(pc, kind, fresh=False):
-    return {"lock": "enter", "walk": "exit", "ret": "done", "done": "done", "idle": "done", "rx": "blocked"}.get(
+    return {"lock": "enter", "walk": "exit", "ret": "done", "done": "done", "idle": "done", "rx": "blocked", "gap": "gap"}.get(
         pc, "selected" if (pc == "fin" and kind == "pe" and fresh) else "")
 
 
@@ -123,6 +130,8 @@ def witness_to_schedule(name, wfile):
                 steps.append(dict(p=p, act="advance", want=None, at=n))
         elif a == "Apply":
             steps.append(dict(p=p, act="start", op=pending[p], want=None, at=n))
+        elif a == "IReindex" and pre[1]["pc"][p] == "gap":
+            steps.append(dict(p=p, act="advance", want=None, at=n))
     for i, st in enumerate(steps):
         if st["want"] is None:
             end = steps[i + 1]["at"] if i + 1 < len(steps) and steps[i + 1]["at"] > st["at"] else len(acts)
@@ -318,16 +327,17 @@ def run(ctx):
 
     # 2. every named deviation really breaks an invariant at model level; its counterexample is the witness to replay
     scheds = []
-    for d in sorted(DEVS):
-        wf = os.path.join(ctx.work, "witness-%s.json" % d)
-        rw = ctx.tlc("MC_Claims", cfg_text=mc_cfg(WITNESS_LEVEL[d], [d], extra="ACTION_CONSTRAINT Coarse"), workers=1, timeout=1800,
-                     deadlock=False, name="mc-asbuilt-" + d, extra=("-dumpTrace", "json", wf), count_states=False)
+    for wname in sorted(WITNESSES):
+        d, lvl, inv = WITNESSES[wname]
+        wf = os.path.join(ctx.work, "witness-%s.json" % wname)
+        rw = ctx.tlc("MC_Claims", cfg_text=mc_cfg(lvl, [d], extra="ACTION_CONSTRAINT Coarse", invs=inv), workers=1, timeout=1800,
+                     deadlock=False, name="mc-asbuilt-" + wname, extra=("-dumpTrace", "json", wf), count_states=False)
         if rw.ok or not os.path.exists(wf):
             raise vlib.Inconclusive("as-built Claims spec with %s satisfies every invariant (vacuous): %s" % (d, rw.error))
-        ctx.extra.setdefault("asbuilt_witness_violates", {})[d] = rw.violated
-        if rw.violated != WITNESS_INV[d]:
-            raise vlib.Inconclusive("as-built witness of %s breaks %s, expected %s" % (d, rw.violated, WITNESS_INV[d]))
-        scheds.append(witness_to_schedule(d, wf))
+        ctx.extra.setdefault("asbuilt_witness_violates", {})[wname] = rw.violated
+        if rw.violated != inv:
+            raise vlib.Inconclusive("as-built witness %s breaks %s, expected %s" % (wname, rw.violated, inv))
+        scheds.append(witness_to_schedule(wname, wf))
 
     binary = ctx.go_build("claims")
 
